@@ -1,4 +1,465 @@
 package main
 
-func recordStub(seed int64, traces, n int, out string) {}
-func recordReal(seed int64, traces int, out string)   {}
+import (
+	"fmt"
+	"math/big"
+	"math/rand"
+	"sort"
+	"strings"
+
+	"github.com/ElrondNetwork/elrond-go/process/smartContract/hooks"
+	"github.com/ElrondNetwork/elrond-go/testscommon"
+	"github.com/ElrondNetwork/elrond-go/vm"
+	"github.com/ElrondNetwork/elrond-go/vm/mock"
+	"github.com/ElrondNetwork/elrond-go/vm/systemSmartContracts"
+	vmcommon "github.com/ElrondNetwork/elrond-vm-common"
+	"github.com/ElrondNetwork/elrond-vm-common/parsers"
+	"verif/harness/internal/vtrace"
+)
+
+// recEEI is a recording decorator around the real vmContext.  The contracts under test (stubs or the real
+// validator / staking / delegation contracts) receive it as their EEI; every state-changing EEI call is forwarded
+// to the real vmContext and logged as one event of specs/VmContext together with the state OBSERVED afterwards:
+// GetStorageFromAddress of every slot touched in this transaction and the output accounts of CreateVMOutput.
+// The real vmContext calls the callee through the container; the container hands out recSC wrappers whose
+// Execute logs the Call / Deploy event at callee entry.
+type recEEI struct {
+	vm.ContextHandler // the real vmContext
+	w                 *vtrace.Writer
+	store             map[string]map[string][]byte // committed storage behind the blockchain hook
+	names             map[string]string            // address -> readable name
+	keys              *vtrace.Interner
+	vals              *vtrace.Interner
+	addrs             *vtrace.Interner
+	slots             []string // touched slots (interned names), in first-touch order
+	slotOf            map[string][2]string
+	cur               []string // scAddress stack (names)
+	fn                []string // function stack
+	pending           *pendingCall
+	events, fails     int
+	sites             map[string]int
+	msgs              map[string]int
+	broken            string
+	stubSites         bool // stub contracts have no meaningful call sites
+	lastFull          string
+}
+
+type pendingCall struct {
+	api, dest, sender, site, full string
+	v                             int
+	entered                       bool
+}
+
+func newRecEEI(w *vtrace.Writer, hook vm.BlockchainHook, store map[string]map[string][]byte, names map[string]string,
+	peers *testscommon.AccountsStub) *recEEI {
+	if peers == nil {
+		peers = &testscommon.AccountsStub{}
+	}
+	eei, err := systemSmartContracts.NewVMContext(hook, hooks.NewVMCryptoHook(), parsers.NewCallArgsParser(),
+		peers, &mock.RaterMock{})
+	if err != nil {
+		panic(err)
+	}
+	return &recEEI{ContextHandler: eei, w: w, store: store, names: names, sites: map[string]int{}, msgs: map[string]int{}}
+}
+
+func (r *recEEI) name(addr []byte) string {
+	if n, ok := r.names[string(addr)]; ok {
+		return n
+	}
+	return fmt.Sprintf("a%d", r.addrs.ID(addr))
+}
+
+func (r *recEEI) val(b []byte) int {
+	if len(b) == 0 {
+		return 0
+	}
+	return r.vals.ID(b)
+}
+
+func (r *recEEI) amount(v *big.Int) int {
+	if v == nil {
+		return 0
+	}
+	if !v.IsInt64() || v.Int64() > 1<<28 || v.Int64() < -(1<<28) {
+		r.broken = "amount outside the TLC integer domain: " + v.String()
+		return 0
+	}
+	return int(v.Int64())
+}
+
+func (r *recEEI) touch(addr, key []byte) string {
+	s := r.name(addr) + "|" + fmt.Sprintf("k%d", r.keys.ID(key))
+	if _, ok := r.slotOf[s]; !ok {
+		r.slotOf[s] = [2]string{string(addr), string(key)}
+		r.slots = append(r.slots, s)
+	}
+	return s
+}
+
+func (r *recEEI) observe() M {
+	stor := M{}
+	for _, s := range r.slots {
+		ak := r.slotOf[s]
+		stor[s] = r.val(r.ContextHandler.GetStorageFromAddress([]byte(ak[0]), []byte(ak[1])))
+	}
+	acc := M{}
+	for a, p := range observeAccounts(r.ContextHandler, r.name) {
+		if p.D > 1<<28 || p.D < -(1<<28) {
+			r.broken = "balance delta outside the TLC integer domain"
+		}
+		acc[a] = M{"d": p.D, "tr": p.Tr}
+	}
+	return M{"stor": stor, "acc": acc}
+}
+
+func (r *recEEI) emit(a string, in M) {
+	r.w.Emit(a, in, M{"x": 0}, r.observe())
+	r.events++
+}
+
+// begin starts a transaction the way systemVM.RunSmartContractCall does and emits the New event
+func (r *recEEI) begin(top []byte, function string, value *big.Int) {
+	r.keys, r.vals, r.addrs = vtrace.NewInterner(), vtrace.NewInterner(), vtrace.NewInterner()
+	r.slots, r.slotOf = nil, map[string][2]string{}
+	r.ContextHandler.CleanCache()
+	r.ContextHandler.SetSCAddress(top)
+	r.ContextHandler.AddTxValueToSmartContract(value, top)
+	r.ContextHandler.SetGasProvided(1 << 40)
+	r.cur, r.fn, r.pending = []string{r.name(top)}, []string{function}, nil
+	base := M{}
+	addrs := []string{}
+	for a := range r.store {
+		addrs = append(addrs, a)
+	}
+	sort.Strings(addrs)
+	for _, a := range addrs {
+		ks := []string{}
+		for k := range r.store[a] {
+			ks = append(ks, k)
+		}
+		sort.Strings(ks)
+		for _, k := range ks {
+			if len(r.store[a][k]) > 0 {
+				base[r.touch([]byte(a), []byte(k))] = r.val(r.store[a][k])
+			}
+		}
+	}
+	r.w.NewTraceWith("New", M{"top": r.name(top), "base": base, "txv": r.amount(value), "fn": function}, M{"x": 0}, r.observe())
+	r.events++
+}
+
+// commit applies a successful transaction's storage updates to the committed storage (what the node does)
+func (r *recEEI) commit(out *vmcommon.VMOutput) {
+	for addr, oa := range out.OutputAccounts {
+		for k, su := range oa.StorageUpdates {
+			if r.store[addr] == nil {
+				r.store[addr] = map[string][]byte{}
+			}
+			r.store[addr][k] = append([]byte{}, su.Data...)
+		}
+	}
+}
+
+func (r *recEEI) me() []byte {
+	// the current scAddress is tracked by name; recover the bytes
+	n := r.cur[len(r.cur)-1]
+	for a, nm := range r.names {
+		if nm == n {
+			return []byte(a)
+		}
+	}
+	var id int
+	fmt.Sscanf(n, "a%d", &id)
+	return r.addrs.Bytes(id)
+}
+
+// ---- reads only make the slot part of the observation
+func (r *recEEI) GetStorage(key []byte) []byte {
+	r.touch(r.me(), key)
+	return r.ContextHandler.GetStorage(key)
+}
+
+func (r *recEEI) GetStorageFromAddress(address []byte, key []byte) []byte {
+	r.touch(address, key)
+	return r.ContextHandler.GetStorageFromAddress(address, key)
+}
+
+// ---- state-changing calls
+func (r *recEEI) SetStorage(key []byte, value []byte) {
+	s := r.touch(r.me(), key)
+	r.ContextHandler.SetStorage(key, value)
+	p := strings.SplitN(s, "|", 2)
+	r.emit("Set", M{"addr": p[0], "k": p[1], "v": r.val(value)})
+}
+
+func (r *recEEI) SetStorageForAddress(address []byte, key []byte, value []byte) {
+	s := r.touch(address, key)
+	r.ContextHandler.SetStorageForAddress(address, key, value)
+	p := strings.SplitN(s, "|", 2)
+	r.emit("Set", M{"addr": p[0], "k": p[1], "v": r.val(value)})
+}
+
+func (r *recEEI) Transfer(destination []byte, sender []byte, value *big.Int, input []byte, gasLimit uint64) error {
+	err := r.ContextHandler.Transfer(destination, sender, value, input, gasLimit)
+	r.emit("Transfer", M{"dest": r.name(destination), "sender": r.name(sender), "v": r.amount(value)})
+	return err
+}
+
+func (r *recEEI) GetBalance(addr []byte) *big.Int {
+	had := false
+	for a := range observeAccounts(r.ContextHandler, r.name) {
+		had = had || a == r.name(addr)
+	}
+	b := r.ContextHandler.GetBalance(addr)
+	if !had {
+		if _, now := observeAccounts(r.ContextHandler, r.name)[r.name(addr)]; now {
+			r.emit("GetBalance", M{"addr": r.name(addr)})
+		}
+	}
+	return b
+}
+
+func (r *recEEI) site(dest []byte, calleeFn string) string {
+	if r.stubSites {
+		r.lastFull = "stub"
+		return "stub"
+	}
+	// the signature class is (caller contract -> callee contract.function); the caller's function is kept in
+	// the statistics only, so that the class does not depend on which public entry point reached the call
+	r.lastFull = fmt.Sprintf("%s.%s->%s.%s", r.cur[len(r.cur)-1], r.fn[len(r.fn)-1], r.name(dest), calleeFn)
+	return fmt.Sprintf("%s->%s.%s", classOf(r.cur[len(r.cur)-1]), classOf(r.name(dest)), calleeFn)
+}
+
+// classOf drops the index of deployed delegation contracts: every instance runs the same code
+func classOf(name string) string {
+	if strings.HasPrefix(name, "delegation") && name != "delegationManager" {
+		return "delegation"
+	}
+	return name
+}
+
+func fnOf(input []byte) string { return strings.SplitN(string(input), "@", 2)[0] }
+
+func (r *recEEI) finishCall(p *pendingCall, ok bool, msg string) {
+	if !p.entered {
+		// the callee never ran (no contract at the address, or the init function was called): the real
+		// ExecuteOnDestContext has transferred the value, copied and restored the context
+		r.pending = nil
+		r.fails++
+		r.sites[p.full+" [not entered]"]++
+		r.emit("CallMissing", M{"dest": p.dest, "sender": p.sender, "v": p.v, "api": "missing-contract", "site": p.site})
+		return
+	}
+	depth := len(r.cur) - 1
+	r.cur, r.fn = r.cur[:len(r.cur)-1], r.fn[:len(r.fn)-1]
+	via := "exec"
+	if p.api == "DeploySystemSC" {
+		via = "deploy"
+	}
+	if !ok {
+		r.fails++
+		r.sites[p.full]++
+	}
+	if !ok {
+		r.msgs[p.full+": "+msg]++
+	}
+	r.emit("Return", M{"ok": ok, "via": via, "depth": depth, "api": p.api, "site": p.site, "from": p.full, "msg": msg})
+}
+
+func (r *recEEI) ExecuteOnDestContext(destination []byte, sender []byte, value *big.Int, input []byte) (*vmcommon.VMOutput, error) {
+	if _, _, err := parsers.NewCallArgsParser().ParseData(string(input)); err != nil {
+		return r.ContextHandler.ExecuteOnDestContext(destination, sender, value, input) // fails before any effect
+	}
+	p := &pendingCall{api: "ExecuteOnDestContext", dest: r.name(destination), sender: r.name(sender), v: r.amount(value),
+		site: r.site(destination, fnOf(input))}
+	p.full = r.lastFull
+	r.pending = p
+	out, err := r.ContextHandler.ExecuteOnDestContext(destination, sender, value, input)
+	msg := ""
+	if out != nil {
+		msg = out.ReturnMessage
+	}
+	r.finishCall(p, err == nil && out != nil && out.ReturnCode == vmcommon.Ok, msg)
+	return out, err
+}
+
+func (r *recEEI) DeploySystemSC(baseContract []byte, newAddress []byte, ownerAddress []byte, initFunction string,
+	value *big.Int, input [][]byte) (vmcommon.ReturnCode, error) {
+	if _, named := r.names[string(newAddress)]; !named && !r.stubSites {
+		r.names[string(newAddress)] = fmt.Sprintf("delegation%d", len(r.names)) // only delegation contracts are deployed
+	}
+	p := &pendingCall{api: "DeploySystemSC", dest: r.name(newAddress), sender: r.cur[len(r.cur)-1], v: r.amount(value),
+		site: r.site(newAddress, initFunction)}
+	p.full = r.lastFull
+	r.pending = p
+	code, err := r.ContextHandler.DeploySystemSC(baseContract, newAddress, ownerAddress, initFunction, value, input)
+	if !p.entered {
+		r.pending = nil
+		r.broken = "DeploySystemSC did not reach the contract: not modelled"
+		return code, err
+	}
+	r.finishCall(p, err == nil && code == vmcommon.Ok, "")
+	return code, err
+}
+
+// recSC wraps a contract handed out by the container: logs the Call / Deploy event at callee entry
+type recSC struct {
+	vm.SystemSmartContract
+	r *recEEI
+}
+
+func (c *recSC) Execute(args *vmcommon.ContractCallInput) vmcommon.ReturnCode {
+	r := c.r
+	if p := r.pending; p != nil && !p.entered {
+		p.entered = true
+		r.pending = nil
+		r.cur = append(r.cur, r.name(args.RecipientAddr))
+		r.fn = append(r.fn, args.Function)
+		if p.api == "DeploySystemSC" {
+			r.emit("Deploy", M{"dest": p.dest, "v": p.v, "site": p.site})
+		} else {
+			r.emit("Call", M{"dest": p.dest, "sender": p.sender, "v": p.v, "site": p.site})
+		}
+	}
+	return c.SystemSmartContract.Execute(args)
+}
+
+type recContainer struct {
+	r   *recEEI
+	get func(key []byte) (vm.SystemSmartContract, error)
+}
+
+func (c *recContainer) Get(key []byte) (vm.SystemSmartContract, error) {
+	sc, err := c.get(key)
+	if err != nil {
+		return nil, err
+	}
+	return &recSC{SystemSmartContract: sc, r: c.r}, nil
+}
+func (c *recContainer) Add(key []byte, val vm.SystemSmartContract) error     { return nil }
+func (c *recContainer) Replace(key []byte, val vm.SystemSmartContract) error { return nil }
+func (c *recContainer) Remove(key []byte)                                    {}
+func (c *recContainer) Len() int                                             { return 0 }
+func (c *recContainer) Keys() [][]byte                                       { return nil }
+func (c *recContainer) IsInterfaceNil() bool                                 { return c == nil }
+
+// ------------------------------------------------------------------------------------------- stub driver
+
+// recordStub: random scripts executed by stub contracts at sizes beyond the exhaustive model (3 contracts,
+// 4 keys, nesting up to 5, foreign-address writes, GetBalance, deploys, calls to missing contracts)
+func recordStub(seed int64, traces, n int, out string) {
+	w, err := vtrace.NewWriter(out)
+	if err != nil {
+		vtrace.Broken(err.Error())
+		return
+	}
+	rng := rand.New(rand.NewSource(seed))
+	scs := []string{"A", "B", "C"}
+	all := []string{"A", "B", "C", "U", "Z"}
+	keys := []string{"k1", "k2", "k3", "k4"}
+	names := map[string]string{}
+	for _, a := range all {
+		names[string(addrOf(a))] = a
+	}
+	store := map[string]map[string][]byte{}
+	hook := &mock.BlockChainHookStub{GetStorageDataCalled: func(address []byte, index []byte) ([]byte, error) {
+		return store[string(address)][string(index)], nil
+	}}
+	r := newRecEEI(w, hook, store, names, nil)
+	r.stubSites = true
+	budget := 0
+	var body func(depth int) vmcommon.ReturnCode
+	body = func(depth int) vmcommon.ReturnCode {
+		for budget > 0 {
+			budget--
+			me := r.me()
+			switch x := rng.Intn(100); {
+			case x < 30:
+				v := []byte{byte(1 + rng.Intn(5))}
+				if rng.Intn(5) == 0 {
+					v = nil
+				}
+				if rng.Intn(6) == 0 {
+					r.SetStorageForAddress(addrOf(scs[rng.Intn(3)]), []byte(keys[rng.Intn(4)]), v)
+				} else {
+					r.SetStorage([]byte(keys[rng.Intn(4)]), v)
+				}
+			case x < 45:
+				_ = r.Transfer(addrOf(all[rng.Intn(5)]), me, big.NewInt(int64(rng.Intn(4))), []byte("t"), 0)
+			case x < 50:
+				// (GetBalance of an address that already has an output account without Balance -- e.g. the one
+				// made by AddTxValueToSmartContract -- dereferences nil in the real code: not exercised)
+				a := all[rng.Intn(5)]
+				if _, has := observeAccounts(r.ContextHandler, r.name)[a]; !has {
+					_ = r.GetBalance(addrOf(a))
+				}
+			case x < 70:
+				if depth < 5 {
+					_, _ = r.ExecuteOnDestContext(addrOf(scs[rng.Intn(3)]), me, big.NewInt(int64(rng.Intn(3)*2)), []byte("run@01"))
+				}
+			case x < 75:
+				if depth < 5 {
+					d := addrOf(scs[rng.Intn(3)])
+					_, _ = r.DeploySystemSC(d, d, addrOf("U"), "_init", big.NewInt(int64(rng.Intn(2)*5)), nil)
+				}
+			case x < 80:
+				_, _ = r.ExecuteOnDestContext(addrOf("Z"), me, big.NewInt(int64(rng.Intn(2)*7)), []byte("run"))
+			case x < 83:
+				_, _ = r.ExecuteOnDestContext(addrOf(scs[rng.Intn(3)]), me, big.NewInt(3), []byte("_init")) // refused
+			case x < 86:
+				_ = r.GetStorageFromAddress(addrOf(scs[rng.Intn(3)]), []byte(keys[rng.Intn(4)]))
+			default:
+				if depth > 0 {
+					if rng.Intn(2) == 0 {
+						return vmcommon.UserError
+					}
+					return vmcommon.Ok
+				}
+			}
+		}
+		return vmcommon.Ok
+	}
+	depth := 0
+	stub := &mock.SystemSCStub{ExecuteCalled: func(args *vmcommon.ContractCallInput) vmcommon.ReturnCode {
+		depth++
+		defer func() { depth-- }()
+		return body(depth)
+	}}
+	_ = r.ContextHandler.SetSystemSCContainer(&recContainer{r: r, get: func(key []byte) (vm.SystemSmartContract, error) {
+		n := nameOf(key)
+		if n == "A" || n == "B" || n == "C" {
+			return stub, nil
+		}
+		return nil, vm.ErrUnknownSystemSmartContract
+	}})
+	for t := 0; t < traces; t++ {
+		// committed storage before the transaction
+		for k := range store {
+			delete(store, k)
+		}
+		for _, a := range scs {
+			store[string(addrOf(a))] = map[string][]byte{}
+			for _, k := range keys {
+				if rng.Intn(2) == 0 {
+					store[string(addrOf(a))][k] = []byte{byte(10 + rng.Intn(3))}
+				}
+			}
+		}
+		top := addrOf(scs[rng.Intn(3)])
+		r.begin(top, "run", big.NewInt(int64(rng.Intn(2)*9)))
+		budget = n
+		depth = 0
+		body(0)
+		_ = r.ContextHandler.CreateVMOutput()
+	}
+	if err := w.Close(); err != nil {
+		vtrace.Broken(err.Error())
+	}
+	if r.broken != "" {
+		vtrace.Broken(r.broken)
+	}
+	vtrace.Stat("events", r.events)
+	vtrace.Stat("traces", traces)
+	vtrace.Stat("failed_inner_calls", r.fails)
+}
